@@ -116,6 +116,10 @@ structure Core where
   (they were accepted when made: the receiving input was not strict then, or a hint was changed
   since) — `(input, output)` pairs -/
   refused : List (Addr × Addr)
+  /-- `Workflow.automate_execution` (re-derive the execution signals from the data DAG before every run) -/
+  automate : Bool
+  /-- `Workflow._inputs_map` / `_outputs_map` (opaque token, 0 = none) -/
+  maps : Nat
   deriving DecidableEq, Repr, Inhabited
 
 def updA {α} (f : Addr → α) (a : Addr) (v : α) : Addr → α := fun x => if x = a then v else f x
@@ -468,6 +472,18 @@ def Slots.read (s : Slots) : Option PNode :=
   match s.pckl with
   | some p => some p
   | none => s.cpckl
+
+/-- AUTOLOAD AT CONSTRUCTION: `Workflow(label, automate_execution=a, inputs_map=m …)` sets what it was
+asked for, then `super().__init__` finds the save file and loads it (`Node.load`) — the stored state
+wins.  `ctorLast = true` is a constructor that re-applies its arguments AFTER that (automation always —
+it defaults to `True` —, the maps when passed): whatever was stored, the workflow comes back automated. -/
+def autoloadAt (cfg : Cfg) (ctorLast : Bool) (ctorAuto : Bool) (ctorMaps : Option Nat) (selfCls : Nat)
+    (own : Option (Option Path)) (p : PNode) : Except Err Node :=
+  match fileLoadAt cfg selfCls own p with
+  | .error e => .error e
+  | .ok (.mk c ch dg sg) =>
+    if ctorLast then .ok (.mk { c with automate := ctorAuto, maps := ctorMaps.getD c.maps } ch dg sg)
+    else .ok (.mk c ch dg sg)
 
 /-! ## `child.load()` in place: a node that has a parent loads a saved state -/
 
